@@ -11,7 +11,13 @@ use std::sync::atomic::{AtomicBool, AtomicU64, Ordering};
 use std::sync::{Mutex, Once};
 use std::time::Instant;
 
-pub const VERIF_ROOT: &str = "/verif";
+pub const VERIF_ROOT_DEFAULT: &str = "/verif";
+
+/// Root for evidence/, replays/ and known_findings.txt. Overridable (VERIF_ROOT) only so that scratch
+/// sensitivity runs against a mutated worktree do not write into /verif.
+pub fn verif_root() -> PathBuf {
+    PathBuf::from(std::env::var("VERIF_ROOT").unwrap_or_else(|_| VERIF_ROOT_DEFAULT.to_string()))
+}
 
 #[derive(Clone, Copy, Debug, PartialEq, Eq)]
 pub enum Tier {
@@ -185,7 +191,7 @@ pub struct KnownFinding {
 }
 
 pub fn load_known_findings(property: &str) -> Vec<KnownFinding> {
-    let path = Path::new(VERIF_ROOT).join("known_findings.txt");
+    let path = verif_root().join("known_findings.txt");
     let Ok(text) = std::fs::read_to_string(path) else {
         return vec![];
     };
@@ -408,7 +414,7 @@ impl Ctx {
     }
 
     fn replay_dir(&self) -> PathBuf {
-        Path::new(VERIF_ROOT).join("replays").join(&self.id)
+        verif_root().join("replays").join(&self.id)
     }
 
     /// Evaluate one case: panics become failures; known signatures are counted and removed.
@@ -843,7 +849,7 @@ impl Ctx {
             "wall_s": wall,
             "violations": self.violations.len(),
         });
-        let dir = Path::new(VERIF_ROOT).join("evidence");
+        let dir = verif_root().join("evidence");
         let _ = std::fs::create_dir_all(&dir);
         let path = dir.join(format!("{}.json", self.id));
         if let Err(e) = std::fs::write(&path, serde_json::to_string_pretty(&ev).unwrap()) {
@@ -871,9 +877,12 @@ impl Ctx {
             );
         }
         if !self.violations.is_empty() {
+            let mut seen = HashSet::new();
             for (sig, _d, path) in &self.violations {
-                println!("  violation sig={}", sig);
-                println!("VIOLATION property={} replay={}", self.id, path.display());
+                if seen.insert(sig.clone()) {
+                    println!("  violation sig={}", sig);
+                    println!("VIOLATION property={} replay={}", self.id, path.display());
+                }
             }
             std::process::exit(1);
         }
